@@ -153,7 +153,7 @@ def run(ctx):
                 'non-trivial = the representation changes dtype, layout or container')
     r = ctx.tlc('Repr', 'Repr_programs.cfg', part='GEN:Repr/Programs', env={'TRACE_FILE': ctx.datafile('empty.json', [])}, workers=1)
     progs = sorted(tuple(rec['v']) for rec in r.records if rec.get('_tag') == 'GEN')
-    cases = core.pmap(run_program, [(k, *p) for k, p in enumerate(progs)], chunksize=2)
+    cases = core.pmap(run_program, [(k, *p) for k, p in enumerate(progs)], chunksize=2, on_raise='drop')
     ver = core.validate_batch(ctx, 'Repr', cases, 'Trace:Repr')
     for c in cases:
         v = ver[c['id']]
